@@ -7,7 +7,7 @@ from .c_socket import SR
 SF = Dict(STR, STR)       # static file mapping: url prefix -> file / directory name
 
 REG.schema('WSGIApp', module='middleware', fields=dict(
-    engineio_app=Ref('Server'), wsgi_app=Opaque('WSGIApplication', True), engineio_path=STR,
+    engineio_app=Opaque('EngineApp'), wsgi_app=Opaque('WSGIApplication', True), engineio_path=STR,
     static_files=SF))
 
 c = REG.contract('static_files.get_static_file', props=['C20'])
@@ -32,6 +32,7 @@ c.check_before("if 'content_type' not in f:", 'served-file-is-root-plus-request-
                "old_path.endswith(extra0) and (f['filename'].startswith(root0 + extra0) or "
                "(root0.endswith('/') and extra0.startswith('/') and "
                "f['filename'].startswith(root0 + extra0[1:])))", props=['C20'])
+c.ensures('empty-mapping-is-falsy', "implies(isinstance(result, str), result == '')")
 c.ensures('request-with-dotdot-is-never-served', "implies(has_dotdot(path), result is None)",
           props=['C20'])
 
@@ -41,3 +42,38 @@ c.returns(List(BYTES))
 c.requires('len(sr_log) == 0', 'fresh-request')
 c.ensures('404', "sr_log == ['404 Not Found'] and result == [b'Not Found']")
 c.modifies('ghost.sr_log', 'ghost.sr_headers')
+
+c = REG.contract('middleware.WSGIApp.__call__', props=['C20'])
+c.param('self', Ref('WSGIApp')).param('environ', ENV).param('start_response', SR)
+c.returns_cases(('delegated', 'True', Opaque('AppResult')), ('served-here', 'True', List(BYTES)))
+c.requires("'PATH_INFO' in environ and (environ['PATH_INFO'] == '' or "
+           "environ['PATH_INFO'].startswith('/'))", 'gateway-environ')
+c.requires('len(sr_log) == 0', 'fresh-request')
+c.requires("self.engineio_path.startswith('/') and self.engineio_path.endswith('/')",
+           'endpoint-normalised-by-init')
+c.abstract("if 'gunicorn.socket' in environ:", 'gunicorn/eventlet socket adapter (driver glue)')
+UNDER = "environ['PATH_INFO'].startswith(self.engineio_path)"
+c.ensures('engine-exactly-under-the-endpoint', "(route == old(route) + ['engine']) == " + UNDER)
+c.ensures('engine-request-untouched-here', 'implies(' + UNDER + ', len(sr_log) == 0 and '
+          'opened == old(opened))')
+c.ensures('static-file-served-with-its-type', 'implies(not ' + UNDER + ' and '
+          "len(opened) > len(old(opened)), sr_log == ['200 OK'] and route == old(route) and "
+          "len(opened) == len(old(opened)) + 1 and not has_dotdot(environ['PATH_INFO']) and "
+          "len(sr_headers) == 1 and sr_headers[0][0] == 'Content-Type')")
+c.ensures('otherwise-app-or-404', 'implies(not ' + UNDER + ' and opened == old(opened), '
+          "(route == old(route) + ['app'] and self.wsgi_app is not None and len(sr_log) == 0) or "
+          "(route == old(route) and sr_log == ['404 Not Found']))")
+c.ensures('app-only-when-no-static-file-was-served', "implies(route == old(route) + ['app'], "
+          'opened == old(opened))')
+c.modifies('ghost.route', 'ghost.opened', 'ghost.sr_log', 'ghost.sr_headers')
+
+c = REG.contract('middleware.WSGIApp.__init__', props=['C20'])
+c.param('self', Ref('WSGIApp')).param('engineio_app', Opaque('EngineApp'))
+c.param('wsgi_app', Opaque('WSGIApplication', True)).param('static_files', [NONE, SF])
+c.param('engineio_path', STR)
+c.ensures('endpoint-normalised', 'self.engineio_path == norm_endpoint(engineio_path)')
+c.ensures('fields', 'self.engineio_app == engineio_app and self.wsgi_app == wsgi_app and '
+          'implies(static_files is not None and len(static_files) > 0, '
+          'self.static_files == static_files) and '
+          'implies(static_files is None, len(self.static_files) == 0)')
+c.modifies('self.engineio_app', 'self.wsgi_app', 'self.engineio_path', 'self.static_files')
